@@ -37,6 +37,7 @@ type HandlerRec struct {
 	ReturnSeq int
 	BodySeen  []byte
 	BodyErr   string
+	Aborted   bool // the script crashed (panicked) on purpose
 	BodyReads int
 }
 
@@ -123,6 +124,9 @@ func (s Script) Serve(w http.ResponseWriter, r *http.Request, log *simfw.Log, re
 		case "abort":
 			// the handler crashes mid-response (net/http would recover it per connection)
 			log.Add("handler", "abort", "", "panic")
+			if rec != nil {
+				rec.Aborted = true
+			}
 			panic(HandlerAbort{})
 		}
 	}
